@@ -675,7 +675,15 @@ func (p *C09) genNonsense(r *model.Rand) (*nonsense, []string) {
 		b.StdinFrom = &zero
 		return a, b
 	}
-	switch r.Intn(24) {
+	switch r.Intn(25) {
+	case 24:
+		// an unknown command letter among the conversions of `info key conv -c`
+		// (the flag is --command there, too): it must not be skipped
+		good := chain(r, 1+r.Intn(4))
+		bad := model.Pick(r, []string{"x", "P", "D", "q", "1", " ", ",", "é", "ｐ", "-"})
+		at := r.Intn(len(good) + 1)
+		ch := good[:at] + bad + good[at:]
+		return mk("unknown-conversion", "flag", 0, Step{Step: simrt.Step{Argv: []string{"info", "key", "conv", "--key", model.Pick(r, model.SupportedKeys), "-c", ch}, Seed: seed}})
 	case 21:
 		// a meter with a zero in it (op/meter.go is one of the validators the
 		// property is anchored in)
